@@ -9,6 +9,9 @@ import (
 	cedar "github.com/cedar-policy/cedar-go"
 )
 
+// file names are opaque to the loaders: whatever is given is what every position reports
+var docNames = []string{"doc.cedar", "", "./p.cedar", "dir//p.cedar", "dir/../p.cedar", "dir/", "a b.cedar", "C:\\x\\p.cedar", "é.cedar", "../..", "/abs/./p"}
+
 func init() { kinds["pshist"] = runPSHist }
 
 var poolTexts = []string{
@@ -76,7 +79,7 @@ func runPSHist(payload []*Sx) *Sx {
 	// copies of the set taken earlier (All / Map) must not change when the set is modified afterwards
 	var snaps []cedar.PolicyMap
 	var snapWant []string
-	for _, op := range payload[0].List[1:] {
+	for opIndex, op := range payload[0].List[1:] {
 		var r *Sx
 		switch op.Head() {
 		case "add":
@@ -185,7 +188,8 @@ func runPSHist(payload []*Sx) *Sx {
 			r = bindingsSx(ps.Map())
 		case "cedarrt":
 			b := ps.MarshalCedar()
-			ps2, err := cedar.NewPolicySetFromBytes("rt.cedar", b)
+			fileName := docNames[(opIndex+len(b))%len(docNames)]
+			ps2, err := cedar.NewPolicySetFromBytes(fileName, b)
 			if err != nil {
 				r = L(A("cedar-reload-error"))
 				break
@@ -193,8 +197,16 @@ func runPSHist(payload []*Sx) *Sx {
 			ps = ps2
 			r = bindingsSx(ps.Map())
 			for _, p := range ps.Map() {
-				if p.Position().Filename != "rt.cedar" {
+				if p.Position().Filename != fileName {
 					r = L(A("bad-filename"))
+				}
+			}
+			// the list loader stamps the same given name
+			if pl, err := cedar.NewPolicyListFromBytes(fileName, b); err == nil {
+				for _, p := range pl {
+					if p.Position().Filename != fileName {
+						r = L(A("bad-filename"))
+					}
 				}
 			}
 		case "fromdoc":
@@ -203,7 +215,8 @@ func runPSHist(payload []*Sx) *Sx {
 				doc.WriteString(poolTexts[int(mustInt64(h.Atom))])
 				doc.WriteString("\n// c\n  ")
 			}
-			ps2, err := cedar.NewPolicySetFromBytes("doc.cedar", []byte(doc.String()))
+			fileName := docNames[(opIndex+doc.Len())%len(docNames)]
+			ps2, err := cedar.NewPolicySetFromBytes(fileName, []byte(doc.String()))
 			if err != nil {
 				r = L(A("fromdoc-error"))
 				break
@@ -211,7 +224,7 @@ func runPSHist(payload []*Sx) *Sx {
 			ps = ps2
 			r = bindingsSx(ps.Map())
 			for _, p := range ps.Map() {
-				if p.Position().Filename != "doc.cedar" {
+				if p.Position().Filename != fileName {
 					r = L(A("bad-filename"))
 				}
 			}
